@@ -6,6 +6,7 @@ import (
 	"strings"
 	"time"
 
+	"verif/enum"
 	"verif/ev"
 )
 
@@ -89,9 +90,10 @@ func printable(b []byte) bool {
 
 // Case executes one enumerated case (if it belongs to this shard). sharded=false means the caller has
 // already applied the shard filter. store=true marks entry points that touch a bbolt store (the input
-// is written to the pending file before the call). f returns a short outcome class.
+// is written to the pending file before the call). prep builds the input (only when the case really
+// runs) and returns it together with the call; the call returns a short outcome class.
 // ran=false: the case was skipped (other shard / other replay case / entry disabled).
-func (s *Sweep) Case(entry, desc string, input []byte, sharded, store bool, f func() string) (res Result, ran bool) {
+func (s *Sweep) Case(entry, desc string, sharded, store bool, prep func() ([]byte, func() string)) (res Result, ran bool) {
 	if s.stop || s.hung[entry] {
 		return Result{}, false
 	}
@@ -113,6 +115,7 @@ func (s *Sweep) Case(entry, desc string, input []byte, sharded, store bool, f fu
 	}
 	s.Calls++
 	s.perEntry[entry]++
+	input, f := prep()
 	if store {
 		s.pending.Set(entry, desc, input)
 	}
@@ -121,7 +124,6 @@ func (s *Sweep) Case(entry, desc string, input []byte, sharded, store bool, f fu
 		s.pending.Clear()
 	}
 	s.R.Eval(entry + "|" + desc)
-	s.R.Transitions(1)
 	mk := func() ReplayCase {
 		rc := ReplayCase{Entry: entry, Desc: desc, Site: res.Site, Caller: res.Caller, Panic: res.Value, Stack: res.Stack}
 		in := input
@@ -164,6 +166,11 @@ func (s *Sweep) Case(entry, desc string, input []byte, sharded, store bool, f fu
 			s.R.Observation("inconclusive-timeout:"+entry, map[string]any{"desc": desc, "timeouts": n})
 			s.R.NotExhaustive("a call exceeded its deadline once but did not reproduce (inconclusive): " + entry)
 		}
+	case strings.HasPrefix(res.Outcome, "!"):
+		// the call itself judged another clause of the statement (e.g. "!state-changed: ...")
+		clause, detail, _ := strings.Cut(strings.TrimPrefix(res.Outcome, "!"), ":")
+		s.R.Outcome(entry + ":" + clause)
+		s.R.Violation(s.Prop+"|"+entry+"|"+clause, fmt.Sprintf("%s: %s%s [case %s]", entry, clause, truncate(detail, 300), truncate(desc, 120)), mk())
 	default:
 		o := res.Outcome
 		if i := strings.IndexByte(o, '\n'); i >= 0 {
@@ -172,4 +179,66 @@ func (s *Sweep) Case(entry, desc string, input []byte, sharded, store bool, f fu
 		s.R.Outcome(entry + ":" + truncate(o, 40))
 	}
 	return res, true
+}
+
+// JSON sweeps every single mutant of doc (and, when pairs is set, every single mutant of every single
+// mutant; sharded on the first mutation) through run. inst names the valid instance. run turns the
+// mutated document into the input bytes and the call.
+func (s *Sweep) JSON(entry, inst string, doc any, o enum.Options, pairs, store bool, run func(doc any) ([]byte, func() string)) {
+	if !s.WantEntry(entry) {
+		return
+	}
+	var want1, want2 string
+	if s.replay != nil {
+		d := strings.TrimPrefix(s.replay.Desc, inst+":")
+		if d == s.replay.Desc {
+			return // other instance
+		}
+		if i := strings.Index(d, " + "); i >= 0 {
+			want1, want2 = d[:i], d[i+3:]
+			pairs = true
+		} else {
+			want1 = d
+		}
+	}
+	singles := enum.Singles(doc, o)
+	if want2 == "" {
+		for _, m := range singles {
+			if s.stop {
+				return
+			}
+			m := m
+			if want1 != "" && m.Desc() != want1 {
+				continue
+			}
+			s.Case(entry, inst+":"+m.Desc(), true, store, func() ([]byte, func() string) { return run(m.Doc) })
+		}
+	}
+	if !pairs || (s.replay != nil && want2 == "") {
+		return
+	}
+	o2 := o
+	o2.Hostile = false
+	for i, m1 := range singles {
+		if s.stop || s.hung[entry] {
+			return
+		}
+		if want1 != "" {
+			if m1.Desc() != want1 {
+				continue
+			}
+		} else if !s.R.Mine(i) {
+			continue
+		}
+		for _, m2 := range enum.Singles(m1.Doc, o2) {
+			m2 := m2
+			if want2 != "" && m2.Desc() != want2 {
+				continue
+			}
+			s.Case(entry, inst+":"+m1.Desc()+" + "+m2.Desc(), false, store, func() ([]byte, func() string) { return run(m2.Doc) })
+			if s.stop {
+				return
+			}
+		}
+	}
 }
